@@ -125,6 +125,7 @@ type endpointInfo struct {
 	snBase    uint32
 	stream    map[uint32][]byte // reassembly: sn -> payload (first transmission wins; all must agree)
 	streamBad bool
+	resent    int // data segments seen on the wire more than once
 	frgOf     map[uint32]uint8
 }
 
@@ -145,6 +146,17 @@ func NewMonitor(start time.Time) *Monitor {
 }
 
 func flow(src, dst string) string { return src + ">" + dst }
+
+// Resent: how many times a data segment that had been on the wire before was sent again, over all registered flows.
+func (m *Monitor) Resent() int {
+	m.mu.Lock()
+	defer m.mu.Unlock()
+	n := 0
+	for _, ep := range m.eps {
+		n += ep.resent
+	}
+	return n
+}
 
 // relSeq: the id relative to the group start of the first id seen on the flow, counted modulo the wrap value (so that it keeps
 // growing across one wrap), its position in the data/parity cycle and whether it lies in the documented range.
@@ -366,6 +378,7 @@ func (m *Monitor) Observe(d *simnet.Dgram) {
 		o.Segs = append(o.Segs, so)
 		if s.Cmd == wire.CmdPush {
 			if old, ok := ep.stream[s.Sn]; ok {
+				ep.resent++ // this sequence number has been on the wire before
 				if !bytes.Equal(old, s.Payload) {
 					ep.streamBad = true // a retransmission carrying different bytes
 				}
